@@ -207,8 +207,9 @@ def history_specs(tier):
         (cg, 1, {"kind": "geometric-bounds", "h": 0.1, "bounds": [-0.7, 0.4], "n_side": 3, "refine": 0}),
         (hem, 1, {"kind": "credit", "h": 0.1, "a_frac": 0.5, "symmetric": True, "refine": 0}),
         (cm, 2, {"kind": "fixed", "h": 0.1, "n": 3, "refine": 0}),
+        (cm, 2, {"kind": "credit", "h": 0.1, "a_frac": [0.4, 0.6], "symmetric": False, "refine": 0}),
     ):
-        for storage in (None, 3):
+        for storage in (None, 3) + ((30,) if grid["kind"] == "credit" and dim == 2 else ()):
             out.append({"sub": "history", "dim": dim, "model": model, "grid": grid, "method": "INVERSION",
                         "storage": storage, "depth": depth})
         out.append({"sub": "history", "dim": dim, "model": model, "grid": grid,
@@ -631,6 +632,29 @@ def _chain(sh, case):
             c2 = "state-outside-grid"
         if frac > 4 * 2.0 ** -52:
             sh.violation(f"C02:chain:{tag}:{c2}:{cls}", f"increment {s} returned on a set of length {frac!r}", None)
+    # (1b) the same law when the memoised prefix is shorter than the number of states (scaled-down overflow regime of the
+    # inversion sampler: _max_storage is 10^6 in the library; here about 60 % of the states, so that the enumeration is
+    # restarted behind the stored prefix for the remaining ones - on grids where the pairing skips inadmissible indices too)
+    if meth == "INVERSION" and nstates >= 5:
+        npr.choice = lambda a, *args, **kw: list(a)[0]
+        try:
+            procs, grids_ = build_process(case)
+            procs.sampling._max_storage = max(3, int(0.6 * nstates))
+            fs, his = single_entry(procs, case)
+            ps, ev, his = recover_partition(fs, n0, 0.0, his)
+            sh.count("evaluations", ev)
+            Ls = lengths(ps, his)
+            for inc, pk in law.items():
+                got = Ls.get(inc, 0.0) / his
+                if abs(got - pk) > 1e-12 + 1e-9 * pk:
+                    sh.violation(f"C02:chain:{tag}:law-differs-under-scaled-storage:{cls}",
+                                 f"_max_storage={procs.sampling._max_storage} (of {nstates} states): state increment {inc}: recovered length {got!r}, target {pk!r}",
+                                 {"increment": inc, "recovered": got, "target": pk})
+                    break
+        except Exception as e:  # noqa
+            sh.violation(f"C02:chain:{tag}:scaled-storage-raises-{type(e).__name__}:{cls}", f"{e!r}", None)
+        finally:
+            npr.choice = orig_choice
     # (3) hidden randomness
     if len(results) == 2:
         p2, hi2, _ = results[1]
@@ -705,7 +729,11 @@ def _history(sh, case):
         for (s, st), nx in zip(pieces, pieces[1:] + [(hi, None)]):
             menu_us.append(s + (nx[0] - s) / 2)
         menu_us += [pieces[len(pieces) // 2][0], 0.0, math.nextafter(hi, -math.inf)]
-        menu_us = sorted(set(menu_us))[:14]
+        menu_us = sorted(set(menu_us))
+        if len(menu_us) > 14:
+            # spread over the whole of [0, hi): the draws beyond the memoised prefix are the interesting ones
+            idx = sorted({round(i * (len(menu_us) - 1) / 13) for i in range(14)})
+            menu_us = [menu_us[i] for i in idx]
         fresh = {}
         for u in menu_us:
             p, _ = build_process(case)
